@@ -458,4 +458,784 @@ theorem brOrder_eq_bitrev (k : Nat) (hk : k ≤ 64) :
   intro a ha
   rw [bitrev_eq k a hk (List.mem_range.mp ha)]
 
+
+section Chunks
+variable {F : Type}
+
+/-! ## 4. chunk maps -/
+
+theorem mapChunks_nil (f : List F → List F) (cs fuel : Nat) : mapChunks f cs fuel [] = [] := by
+  cases fuel <;> rfl
+
+/-- one step of `chunks_mut(cs).for_each(f)` -/
+theorem mapChunks_append (f : List F → List F) (cs fuel : Nat) (a b : List F)
+    (ha : a.length = cs) (hcs : 0 < cs) :
+    mapChunks f cs (fuel + 1) (a ++ b) = f a ++ mapChunks f cs fuel b := by
+  cases a with
+  | nil => simp at ha; omega
+  | cons x a =>
+    rw [List.cons_append, mapChunks, ← List.cons_append, ← ha, List.take_left, List.drop_left]
+
+theorem mapChunks_flatten (f : List F → List F) (s : Nat) (hs : 0 < s) (cs : List (List F))
+    (hcs : ∀ c ∈ cs, c.length = s) (fuel : Nat) (hf : cs.length ≤ fuel) :
+    mapChunks f s fuel cs.flatten = (cs.map f).flatten := by
+  induction cs generalizing fuel with
+  | nil => simp [mapChunks_nil]
+  | cons c cs ih =>
+    cases fuel with
+    | zero => simp at hf
+    | succ fuel =>
+      rw [List.flatten_cons, mapChunks_append f s fuel c _ (hcs c (by simp)) hs,
+        ih (fun c hc => hcs c (by simp [hc])) fuel (by simpa using hf)]
+      simp
+
+theorem length_flatten_const (s : Nat) (cs : List (List F)) (hcs : ∀ c ∈ cs, c.length = s) :
+    cs.flatten.length = cs.length * s := by
+  induction cs with
+  | nil => simp
+  | cons c cs ih =>
+    rw [List.flatten_cons, List.length_append, ih (fun c hc => hcs c (by simp [hc])),
+      hcs c (by simp), List.length_cons]
+    ring
+
+theorem flatten_pairs (cs : List (List F)) (p q : List F → List F) :
+    (cs.flatMap (fun c => [p c, q c])).flatten = (cs.map (fun c => p c ++ q c)).flatten := by
+  induction cs with
+  | nil => rfl
+  | cons c cs ih => simp [List.flatMap_cons, ih]
+
+theorem flatMap_pair_congr {α β γ : Type} (l1 : List α) (l2 : List β) (f1 f2 : α → γ) (g1 g2 : β → γ)
+    (h1 : l1.map f1 = l2.map g1) (h2 : l1.map f2 = l2.map g2) :
+    l1.flatMap (fun c => [f1 c, f2 c]) = l2.flatMap (fun b => [g1 b, g2 b]) := by
+  induction l1 generalizing l2 with
+  | nil =>
+    cases l2 with
+    | nil => rfl
+    | cons b l2 => simp at h1
+  | cons a l1 ih =>
+    cases l2 with
+    | nil => simp at h1
+    | cons b l2 =>
+      simp only [List.map_cons, List.cons.injEq] at h1 h2
+      simp only [List.flatMap_cons, h1.1, h2.1, ih l2 h1.2 h2.2]
+
+theorem flatten_singletons (cs : List (List F)) (g : List F → F)
+    (h : ∀ c ∈ cs, c = [g c]) : cs.flatten = cs.map g := by
+  induction cs with
+  | nil => rfl
+  | cons c cs ih =>
+    rw [List.flatten_cons, ih (fun c hc => h c (by simp [hc])), List.map_cons]
+    conv_lhs => rw [h c (by simp)]
+    rfl
+
+/-- split a list of length `m·s` into `m` chunks of length `s` -/
+theorem exists_chunks (s m : Nat) (l : List F) (hl : l.length = m * s) :
+    ∃ cs : List (List F), cs.flatten = l ∧ cs.length = m ∧ ∀ c ∈ cs, c.length = s := by
+  induction m generalizing l with
+  | zero =>
+    refine ⟨[], ?_, rfl, by simp⟩
+    have : l.length = 0 := by simpa using hl
+    simp [List.length_eq_zero_iff.mp this]
+  | succ m ih =>
+    obtain ⟨cs, h1, h2, h3⟩ := ih (l.drop s) (by rw [List.length_drop, hl]; rw [Nat.succ_mul]; omega)
+    refine ⟨l.take s :: cs, ?_, by simp [h2], ?_⟩
+    · rw [List.flatten_cons, h1, List.take_append_drop]
+    · intro c hc
+      rcases List.mem_cons.mp hc with rfl | hc
+      · rw [List.length_take, hl, Nat.succ_mul]; omega
+      · exact h3 c hc
+
+end Chunks
+
+section IO
+variable {F : Type} [CommRing F]
+
+/-! ## 5. `io_helper` (DIF, in-order input, bit-reversed output) -/
+
+theorem ceil_div_pow (a b : Nat) (h : b ≤ a) : (2 ^ a + 2 ^ b - 1) / 2 ^ b = 2 ^ (a - b) := by
+  have hpos : 0 < 2 ^ b := by positivity
+  have e : 2 ^ a = 2 ^ (a - b) * 2 ^ b := by rw [← pow_add]; congr 1; omega
+  rw [e]
+  have : 2 ^ (a - b) * 2 ^ b + 2 ^ b - 1 = (2 ^ b - 1) + 2 ^ (a - b) * 2 ^ b := by omega
+  rw [this, Nat.add_mul_div_right _ _ hpos, Nat.div_eq_of_lt (by omega)]
+  simp
+
+theorem stepBy_pow_table (a b : Nat) (h : b ≤ a) (w : F) :
+    stepBy (2 ^ b) (computePowersSerial (2 ^ a) w) = computePowersSerial (2 ^ (a - b)) (w ^ 2 ^ b) := by
+  rw [stepBy_computePowersSerial _ (by positivity), ceil_div_pow a b h]
+
+/-- state of the `roots` / `step` / `first` variables of `io_helper` on entry to pass `l`
+    (`2^l` chunks): untouched cache (first pass / later passes) or a compacted table -/
+def RootsInv (k : Nat) (w : F) (l : Nat) (roots : List F) (step : Nat) (first : Bool) : Prop :=
+  (roots = computePowersSerial (2 ^ (k - 1)) w ∧ first = true ∧ step = 1 ∧ l = 0) ∨
+  (roots = computePowersSerial (2 ^ (k - 1)) w ∧ first = false ∧ 1 ≤ l ∧ step = 2 ^ (l - 1)) ∨
+  (roots = computePowersSerial (2 ^ (k - l)) (w ^ 2 ^ (l - 1)) ∧ first = false ∧ 1 ≤ l ∧ step = 1 ∧
+    128 ≤ 2 ^ (l - 1))
+
+/-- both root-compaction branches of `io_helper` only re-index the table: the roots used by pass `l`
+    are the first `gap = 2^j` powers of `root^numChunks` -/
+theorem io_roots_step (k l j : Nat) (h : l + j + 1 = k) (w : F) (roots : List F) (step : Nat)
+    (first : Bool) (hR : RootsInv k w l roots step first) (rs : List F × Nat)
+    (hrs : rs = if 2 ^ l ≥ MIN_NUM_CHUNKS_FOR_COMPACTION then
+        ((if !first then stepBy (step * 2) roots else roots), 1) else (roots, 2 ^ l)) :
+    stepBy rs.2 rs.1 = computePowersSerial (2 ^ j) (w ^ 2 ^ l) ∧
+      RootsInv k w (l + 1) rs.1 rs.2 false := by
+  have hj : k - 1 - l = j := by omega
+  have hj' : k - (l + 1) = j := by omega
+  unfold MIN_NUM_CHUNKS_FOR_COMPACTION at hrs
+  rcases hR with ⟨hr, hf, hs, hl⟩ | ⟨hr, hf, hl, hs⟩ | ⟨hr, hf, hl, hs, hbig⟩
+  · subst hl hf hs
+    have hk1 : k - 1 = j := by omega
+    by_cases hc : (2 : Nat) ^ 0 ≥ 128
+    · simp at hc
+    · rw [if_neg hc] at hrs
+      subst hrs
+      simp only [pow_zero, pow_one, stepBy_one]
+      refine ⟨by rw [hr, hk1], Or.inr (Or.inl ⟨hr, rfl, by omega, by simp⟩)⟩
+  · subst hf
+    by_cases hc : (2 : Nat) ^ l ≥ 128
+    · rw [if_pos hc] at hrs
+      subst hrs
+      simp only [Bool.not_false, if_true, stepBy_one]
+      have e : step * 2 = 2 ^ l := by rw [hs, ← pow_succ]; congr 1; omega
+      have hst : stepBy (step * 2) roots = computePowersSerial (2 ^ j) (w ^ 2 ^ l) := by
+        rw [e, hr, stepBy_pow_table (k - 1) l (by omega) w, hj]
+      refine ⟨hst, Or.inr (Or.inr ⟨?_, rfl, by omega, rfl, ?_⟩)⟩
+      · rw [hst, hj']; simp
+      · simpa using hc
+    · rw [if_neg hc] at hrs
+      subst hrs
+      refine ⟨?_, Or.inr (Or.inl ⟨hr, rfl, by omega, by simp⟩)⟩
+      show stepBy (2 ^ l) roots = _
+      rw [hr, stepBy_pow_table (k - 1) l (by omega) w, hj]
+  · subst hf hs
+    have hc : (2 : Nat) ^ l ≥ 128 := by
+      have : 2 ^ l = 2 ^ (l - 1) * 2 := by rw [← pow_succ]; congr 1; omega
+      omega
+    rw [if_pos hc] at hrs
+    subst hrs
+    simp only [Bool.not_false, if_true, stepBy_one, one_mul]
+    have hst : stepBy 2 roots = computePowersSerial (2 ^ j) (w ^ 2 ^ l) := by
+      have := stepBy_pow_table (k - l) 1 (by omega) (w ^ 2 ^ (l - 1))
+      rw [pow_one] at this
+      rw [hr, this, ← pow_mul, ← pow_succ]
+      congr 2
+      · congr 1; omega
+    refine ⟨hst, Or.inr (Or.inr ⟨?_, rfl, by omega, rfl, ?_⟩)⟩
+    · rw [hst, hj']; simp
+    · simpa using hc
+
+/-- state invariant of `io_helper` after `l` passes: `2^l` chunks of length `2^(k−l)`; chunk number
+    `c` is a polynomial whose values at the powers of `ω^(2^l)` are the values of the input at
+    `ω^(2^l·t + brU_l[c])` -/
+structure IoInv (k : Nat) (w : F) (x0 : List F) (l : Nat) (cs : List (List F)) : Prop where
+  len : cs.length = 2 ^ l
+  size : ∀ c ∈ cs, c.length = 2 ^ (k - l)
+  ev : ∀ t : Nat, cs.map (fun c => eval c ((w ^ 2 ^ l) ^ t))
+        = (brU l).map (fun b => eval x0 (w ^ (2 ^ l * t + b)))
+
+omit [CommRing F] in
+theorem length_flatMap_pair {α : Type} (cs : List α) (p q : α → List F) :
+    (cs.flatMap (fun c => [p c, q c])).length = 2 * cs.length := by
+  induction cs with
+  | nil => rfl
+  | cons c cs ih => simp only [List.flatMap_cons, List.length_append, ih, List.length_cons,
+      List.length_nil]; omega
+
+theorem io_pass (k l j : Nat) (h : l + j + 1 = k) (w : F) (hw : w ^ 2 ^ (k - 1) = -1)
+    (x0 : List F) (cs : List (List F)) (hI : IoInv k w x0 l cs) :
+    ∃ cs' : List (List F),
+      (cs.map (chunkButterfly butterflyIO (computePowersSerial (2 ^ j) (w ^ 2 ^ l)) (2 ^ j))).flatten
+        = cs'.flatten ∧ IoInv k w x0 (l + 1) cs' := by
+  have hk : k - l = j + 1 := by omega
+  have hk' : k - (l + 1) = j := by omega
+  generalize hg : 2 ^ j = g
+  generalize hζ : w ^ 2 ^ l = ζ
+  have hζg : ζ ^ g = -1 := by
+    rw [← hζ, ← hg, ← pow_mul, ← pow_add, show l + j = k - 1 by omega]; exact hw
+  have hsz : ∀ c ∈ cs, c.length = 2 * g := by
+    intro c hc; rw [hI.size c hc, hk, pow_succ, hg]; ring
+  let zb := fun c : List F => zipButterfly butterflyIO (c.take g) (c.drop g) (computePowersSerial g ζ)
+  have hdif : ∀ c ∈ cs, ∀ t : Nat,
+      eval (zb c).1 ((ζ ^ 2) ^ t) = eval c ((ζ ^ 2) ^ t) ∧
+      eval (zb c).2 ((ζ ^ 2) ^ t) = eval c (ζ * (ζ ^ 2) ^ t) := by
+    intro c hc t
+    have hc2 := hsz c hc
+    have := dif_step (c.take g) (c.drop g) ζ g (by rw [List.length_take]; omega)
+      (by rw [List.length_drop]; omega) hζg t
+    rw [List.take_append_drop] at this
+    exact ⟨this.1.symm, this.2.symm⟩
+  have hζ2 : w ^ 2 ^ (l + 1) = ζ ^ 2 := by rw [← hζ, ← pow_mul, pow_succ]
+  refine ⟨cs.flatMap (fun c => [(zb c).1, (zb c).2]), ?_, ⟨?_, ?_, ?_⟩⟩
+  · rw [flatten_pairs]; rfl
+  · rw [length_flatMap_pair, hI.len, pow_succ]; ring
+  · intro c' hc'
+    obtain ⟨c, hc, hm⟩ := List.mem_flatMap.mp hc'
+    have hc2 := hsz c hc
+    have hlen := zipButterfly_length butterflyIO (c.take g) (c.drop g) (computePowersSerial g ζ)
+    rw [hk', hg]
+    simp only [List.mem_cons, List.not_mem_nil, or_false] at hm
+    rcases hm with rfl | rfl
+    · rw [hlen.1, List.length_take]; omega
+    · rw [hlen.2, List.length_drop]; omega
+  · intro t
+    rw [hζ2, List.map_flatMap, brU, List.map_flatMap]
+    have h1 : cs.map (fun c => eval (zb c).1 ((ζ ^ 2) ^ t))
+        = (brU l).map (fun b => eval x0 (w ^ (2 ^ (l + 1) * t + b))) := by
+      have := hI.ev (2 * t)
+      rw [hζ] at this
+      rw [show (fun b => eval x0 (w ^ (2 ^ (l + 1) * t + b)))
+            = (fun b => eval x0 (w ^ (2 ^ l * (2 * t) + b))) by
+          funext b; rw [pow_succ]; congr 2; ring, ← this]
+      apply List.map_congr_left
+      intro c hc
+      rw [(hdif c hc t).1, ← pow_mul]
+    have h2 : cs.map (fun c => eval (zb c).2 ((ζ ^ 2) ^ t))
+        = (brU l).map (fun b => eval x0 (w ^ (2 ^ (l + 1) * t + (b + 2 ^ l)))) := by
+      have := hI.ev (2 * t + 1)
+      rw [hζ] at this
+      rw [show (fun b => eval x0 (w ^ (2 ^ (l + 1) * t + (b + 2 ^ l))))
+            = (fun b => eval x0 (w ^ (2 ^ l * (2 * t + 1) + b))) by
+          funext b; rw [pow_succ]; congr 2; ring, ← this]
+      apply List.map_congr_left
+      intro c hc
+      rw [(hdif c hc t).2, ← pow_mul, ← pow_succ']
+    exact flatMap_pair_congr cs (brU l) _ _ _ _ h1 h2
+
+theorem ioLoop_spec (k : Nat) (w : F) (hw : w ^ 2 ^ (k - 1) = -1) (x0 : List F) :
+    ∀ (j l : Nat), l + j = k → ∀ (fuel : Nat) (cs : List (List F)) (roots : List F) (step : Nat)
+      (first : Bool), j < fuel → IoInv k w x0 l cs → RootsInv k w l roots step first →
+      ioLoop fuel cs.flatten roots step first (2 ^ j / 2) = (brU k).map (fun b => eval x0 (w ^ b)) := by
+  intro j
+  induction j with
+  | zero =>
+    intro l hl fuel cs roots step first hf hI _
+    obtain ⟨fuel, rfl⟩ : ∃ f, fuel = f + 1 := ⟨fuel - 1, by omega⟩
+    have hl : l = k := by omega
+    subst hl
+    rw [ioLoop, if_neg (by simp)]
+    have h0 := hI.ev 0
+    simp only [pow_zero, Nat.mul_zero, Nat.zero_add] at h0
+    rw [← h0]
+    apply flatten_singletons
+    intro c hc
+    have := hI.size c hc
+    simp only [Nat.sub_self, pow_zero] at this
+    obtain ⟨a, rfl⟩ := List.length_eq_one_iff.mp this
+    simp
+  | succ j ih =>
+    intro l hl fuel cs roots step first hf hI hR
+    obtain ⟨fuel, rfl⟩ : ∃ f, fuel = f + 1 := ⟨fuel - 1, by omega⟩
+    have hgap : 2 ^ (j + 1) / 2 = 2 ^ j := by rw [pow_succ]; simp
+    have hlen : cs.flatten.length = 2 ^ k := by
+      rw [length_flatten_const _ cs hI.size, hI.len, ← pow_add]; congr 1; omega
+    have hnc : cs.flatten.length / (2 * 2 ^ j) = 2 ^ l := by
+      rw [hlen, ← pow_succ', show k = l + (j + 1) by omega, pow_add,
+        Nat.mul_div_cancel _ (by positivity)]
+    rw [ioLoop, hgap, if_pos (by positivity)]
+    simp only [hnc]
+    generalize hrs : (if 2 ^ l ≥ MIN_NUM_CHUNKS_FOR_COMPACTION then
+        ((if !first then stepBy (step * 2) roots else roots), 1) else (roots, 2 ^ l)) = rs
+    obtain ⟨h1, h2⟩ := io_roots_step k l j (by omega) w roots step first hR rs hrs.symm
+    obtain ⟨cs', hfl, hI'⟩ := io_pass k l j (by omega) w hw x0 cs hI
+    have hab : applyButterfly butterflyIO cs.flatten rs.1 rs.2 (2 * 2 ^ j) (2 ^ j) = cs'.flatten := by
+      unfold applyButterfly
+      rw [h1, mapChunks_flatten _ (2 * 2 ^ j) (by positivity) cs ?_ _ ?_, hfl]
+      · intro c hc; rw [hI.size c hc, show k - l = j + 1 by omega, pow_succ']
+      · rw [hlen, hI.len]; exact Nat.pow_le_pow_right (by omega) (by omega)
+    rw [hab]
+    have := ih (l + 1) (by omega) fuel cs' rs.1 rs.2 false (by omega) hI' h2
+    rw [← this]
+
+/-- `io_helper` returns the values at the powers of `ω` in bit-reversed order -/
+theorem ioHelper_spec (d : Domain F) (xi : List F) (w : F) (k : Nat) (hd : d.size = 2 ^ k)
+    (hx : xi.length = 2 ^ k) (hw : k = 0 ∨ w ^ 2 ^ (k - 1) = -1) :
+    ioHelper d xi w = (brU k).map (fun i => eval xi (w ^ i)) := by
+  rcases Nat.eq_zero_or_pos k with h0 | hpos
+  · subst h0
+    obtain ⟨a, rfl⟩ := List.length_eq_one_iff.mp (by simpa using hx)
+    simp [ioHelper, ioLoop, brU]
+  · have hw : w ^ 2 ^ (k - 1) = -1 := by
+      rcases hw with h | h
+      · omega
+      · exact h
+    unfold ioHelper rootsOfUnity
+    have hhalf : 2 ^ k / 2 = 2 ^ (k - 1) := by
+      obtain ⟨k', rfl⟩ : ∃ k', k = k' + 1 := ⟨k - 1, by omega⟩
+      rw [pow_succ]; simp
+    have := ioLoop_spec k w hw xi k 0 (by omega) (xi.length + 1) [xi] (computePowersSerial (2 ^ (k - 1)) w)
+      1 true (by rw [hx]; have := Nat.lt_two_pow_self (n := k); omega)
+      ⟨by simp, by simp [hx], by intro t; simp [brU]⟩ (Or.inl ⟨rfl, rfl, rfl, rfl⟩)
+    simp only [List.flatten_cons, List.flatten_nil, List.append_nil] at this
+    rw [hhalf] at this
+    rw [hd, hhalf, show xi.length / 2 = 2 ^ (k - 1) by rw [hx, hhalf]]
+    exact this
+
+end IO
+
+section Derange
+variable {F : Type}
+
+/-! ## 6. `derange` -/
+
+theorem getElem?_swapIfInBounds (a : Array F) (i j k : Nat) (hi : i < a.size) (hj : j < a.size) :
+    (a.swapIfInBounds i j)[k]? = if j = k then a[i]? else if i = k then a[j]? else a[k]? := by
+  rw [Array.swapIfInBounds_def, dif_pos hi, dif_pos hj, Array.getElem?_swap]
+  simp [hi, hj]
+
+theorem swapPass_congr (r r' : Nat → Nat) (idxs : List Nat) (h : ∀ i ∈ idxs, r i = r' i) (a : Array F) :
+    swapPass r idxs a = swapPass r' idxs a := by
+  unfold swapPass
+  induction idxs generalizing a with
+  | nil => rfl
+  | cons i idxs ih =>
+    simp only [List.foldl_cons]
+    rw [h i (by simp), ih (fun j hj => h j (by simp [hj]))]
+
+theorem swap_step (r : Nat → Nat) (n : Nat) (xs : Array F)
+    (hr : ∀ i < n, r i < n) (hinv : ∀ i < n, r (r i) = i) (s : Nat) (hs : s < n) (a : Array F)
+    (ha : a.size = n)
+    (hP : ∀ i < n, a[i]? = if (i < s ∨ r i < s) then xs[r i]? else xs[i]?) :
+    (if s < r s then a.swapIfInBounds s (r s) else a).size = n ∧
+    ∀ i < n, (if s < r s then a.swapIfInBounds s (r s) else a)[i]?
+      = if (i < s + 1 ∨ r i < s + 1) then xs[r i]? else xs[i]? := by
+  by_cases h : s < r s
+  · rw [if_pos h]
+    refine ⟨by simp [ha], ?_⟩
+    intro i hi
+    rw [getElem?_swapIfInBounds a s (r s) i (by omega) (by rw [ha]; exact hr s hs)]
+    by_cases h1 : r s = i
+    · rw [if_pos h1, hP s hs, if_neg (by omega)]
+      have : r i = s := by rw [← h1, hinv s hs]
+      rw [if_pos (by omega), this]
+    · rw [if_neg h1]
+      by_cases h2 : s = i
+      · rw [if_pos h2, hP (r s) (hr s hs), hinv s hs, if_neg (by omega), if_pos (by omega), h2]
+      · rw [if_neg h2, hP i hi]
+        have h3 : r i ≠ s := by
+          intro h3; apply h1; rw [← h3, hinv i hi]
+        by_cases hc : i < s ∨ r i < s
+        · rw [if_pos hc, if_pos (by omega)]
+        · rw [if_neg hc, if_neg (by omega)]
+  · rw [if_neg h]
+    refine ⟨ha, ?_⟩
+    intro i hi
+    rw [hP i hi]
+    by_cases hc : i < s ∨ r i < s
+    · rw [if_pos hc, if_pos (by omega)]
+    · rw [if_neg hc]
+      by_cases hc' : i < s + 1 ∨ r i < s + 1
+      · rw [if_pos hc']
+        have : i = s ∨ r i = s := by omega
+        rcases this with rfl | h3
+        · have : r i = i := by omega
+          rw [this]
+        · have : i = r s := by rw [← h3, hinv i hi]
+          have h4 : r i = i := by omega
+          rw [h4]
+      · rw [if_neg hc']
+
+/-- invariant of the conditional-swap loop over `s, s+1, …, s+len-1` for an involution `r` -/
+theorem swapPass_range' (r : Nat → Nat) (n : Nat) (xs : Array F)
+    (hr : ∀ i < n, r i < n) (hinv : ∀ i < n, r (r i) = i) :
+    ∀ (len s : Nat) (a : Array F), s + len ≤ n → a.size = n →
+      (∀ i < n, a[i]? = if (i < s ∨ r i < s) then xs[r i]? else xs[i]?) →
+      (swapPass r (List.range' s len) a).size = n ∧
+      ∀ i < n, (swapPass r (List.range' s len) a)[i]?
+        = if (i < s + len ∨ r i < s + len) then xs[r i]? else xs[i]? := by
+  intro len
+  induction len with
+  | zero => intro s a _ ha hP; exact ⟨ha, hP⟩
+  | succ len ih =>
+    intro s a hle ha hP
+    obtain ⟨h1, h2⟩ := swap_step r n xs hr hinv s (by omega) a ha hP
+    have := ih (s + 1) _ (by omega) h1 h2
+    rw [List.range'_succ]
+    unfold swapPass at this ⊢
+    rw [List.foldl_cons]
+    rw [show s + (len + 1) = s + 1 + len by omega]
+    exact this
+
+/-- the swap loop started at 1 and run to `n-2` (as `derange` does) realises `r` when `r 0 = 0` -/
+theorem swapPass_derange (r : Nat → Nat) (n : Nat) (hn : 0 < n) (xs : Array F) (hxs : xs.size = n)
+    (hr : ∀ i < n, r i < n) (hinv : ∀ i < n, r (r i) = i) (h0 : r 0 = 0) :
+    (swapPass r (List.range' 1 (n - 2)) xs).size = n ∧
+    ∀ i < n, (swapPass r (List.range' 1 (n - 2)) xs)[i]? = xs[r i]? := by
+  have hP1 : ∀ i < n, xs[i]? = if (i < 1 ∨ r i < 1) then xs[r i]? else xs[i]? := by
+    intro i hi
+    by_cases hc : i < 1 ∨ r i < 1
+    · rw [if_pos hc]
+      have : i = 0 := by
+        rcases hc with h | h
+        · omega
+        · have : r i = 0 := by omega
+          rw [← hinv i hi, this, h0]
+      subst this; rw [h0]
+    · rw [if_neg hc]
+  obtain ⟨h1, h2⟩ := swapPass_range' r n xs hr hinv (n - 2) 1 xs (by omega) hxs hP1
+  refine ⟨h1, ?_⟩
+  intro i hi
+  rw [h2 i hi]
+  by_cases hc : i < 1 + (n - 2) ∨ r i < 1 + (n - 2)
+  · rw [if_pos hc]
+  · rw [if_neg hc]
+    have := hr i hi
+    have : r i = i := by omega
+    rw [this]
+
+end Derange
+
+section DerangeSpec
+variable {F : Type}
+
+theorem derange_spec (xs : List F) (k : Nat) (hk : k ≤ 64) (hx : xs.length = 2 ^ k) :
+    (derange xs k).length = 2 ^ k ∧ ∀ i < 2 ^ k, (derange xs k)[i]? = xs[brev k i]? := by
+  unfold derange
+  rw [swapPass_congr (fun i => bitrev i k) (brev k)]
+  · have hpos : 0 < 2 ^ k := by positivity
+    obtain ⟨h1, h2⟩ := swapPass_derange (brev k) (2 ^ k) hpos xs.toArray (by simpa using hx)
+      (fun i _ => brev_lt k i) (fun i hi => brev_brev k i hi) (brev_zero k)
+    rw [hx]
+    refine ⟨by simpa using h1, ?_⟩
+    intro i hi
+    have := h2 i hi
+    simpa using this
+  · intro i hi
+    rw [List.mem_range'_1] at hi
+    exact bitrev_eq k i hk (by omega)
+
+theorem derange_getElem? (xs : List F) (k : Nat) (hk : k ≤ 64) (hx : xs.length = 2 ^ k) (i : Nat)
+    (hi : i < 2 ^ k) : (derange xs k)[i]? = xs[brev k i]? := (derange_spec xs k hk hx).2 i hi
+
+theorem length_derange (xs : List F) (k : Nat) (hk : k ≤ 64) (hx : xs.length = 2 ^ k) :
+    (derange xs k).length = 2 ^ k := (derange_spec xs k hk hx).1
+
+/-- `derange` of a tabulated function -/
+theorem derange_map (f : Nat → F) (k : Nat) (hk : k ≤ 64) :
+    derange ((List.range (2 ^ k)).map f) k = (List.range (2 ^ k)).map (fun i => f (brev k i)) := by
+  have hx : ((List.range (2 ^ k)).map f).length = 2 ^ k := by simp
+  apply List.ext_getElem?
+  intro i
+  by_cases hi : i < 2 ^ k
+  · rw [derange_getElem? _ k hk hx i hi]
+    simp [hi, brev_lt k i]
+  · rw [List.getElem?_eq_none (by rw [length_derange _ k hk hx]; omega),
+      List.getElem?_eq_none (by simp; omega)]
+
+/-- `derange` is an involution -/
+theorem derange_derange (xs : List F) (k : Nat) (hk : k ≤ 64) (hx : xs.length = 2 ^ k) :
+    derange (derange xs k) k = xs := by
+  have hl := length_derange xs k hk hx
+  apply List.ext_getElem?
+  intro i
+  by_cases hi : i < 2 ^ k
+  · rw [derange_getElem? _ k hk hl i hi, derange_getElem? _ k hk hx _ (brev_lt k i), brev_brev k i hi]
+  · rw [List.getElem?_eq_none (by rw [length_derange _ k hk hl]; omega),
+      List.getElem?_eq_none (by omega)]
+
+end DerangeSpec
+
+/-! ## 7. the in-order forward transform -/
+
+theorem isPowerOfTwo_two_pow (k : Nat) : isPowerOfTwo (2 ^ k) = true := by
+  unfold isPowerOfTwo
+  rw [Nat.log2_two_pow]
+  simp
+
+theorem log2_two_pow (k : Nat) : log2 (2 ^ k) = k := by
+  unfold log2
+  rw [if_neg (by positivity), isPowerOfTwo_two_pow, if_pos rfl, Nat.log2_two_pow]
+
+section Fwd
+variable {F : Type} [CommRing F] [DecidableEq F]
+
+/-- the coset pre-scaling of `in_order_fft_in_place` / `degree_aware_fft_in_place` -/
+theorem coset_scale (d : Domain F) (xs : List F) :
+    (if d.offset ≠ 1 then distributePowers xs d.offset else xs).length = xs.length ∧
+    ∀ y, eval (if d.offset ≠ 1 then distributePowers xs d.offset else xs) y = eval xs (d.offset * y) := by
+  by_cases h : d.offset ≠ 1
+  · rw [if_pos h]
+    exact ⟨by unfold distributePowers; simp, fun y => eval_distributePowers xs d.offset y⟩
+  · rw [if_neg h]
+    have : d.offset = 1 := by simpa using h
+    exact ⟨rfl, fun y => by rw [this, one_mul]⟩
+
+theorem half_pow (k : Nat) (hk : 0 < k) : 2 ^ k / 2 = 2 ^ (k - 1) := by
+  obtain ⟨k', rfl⟩ : ∃ k', k = k' + 1 := ⟨k - 1, by omega⟩
+  rw [pow_succ]; simp
+
+omit [DecidableEq F] in
+theorem root_hyp (k : Nat) (n : Nat) (hn : n = 2 ^ k) (g : F) (hg : n = 1 ∨ g ^ (n / 2) = -1) :
+    k = 0 ∨ g ^ 2 ^ (k - 1) = -1 := by
+  rcases Nat.eq_zero_or_pos k with h0 | hpos
+  · exact Or.inl h0
+  · right
+    rcases hg with h | h
+    · rw [hn] at h
+      have : 2 ^ k ≠ 1 := by
+        have := Nat.one_lt_two_pow (n := k) (by omega); omega
+      exact absurd h this
+    · rwa [hn, half_pow k hpos] at h
+
+/-- forward transform on the full-size input -/
+theorem inOrderFft_spec (d : Domain F) (xs : List F) (k : Nat) (hk : k ≤ 64) (hd : d.size = 2 ^ k)
+    (hx : xs.length = d.size) (hg : k = 0 ∨ d.groupGen ^ 2 ^ (k - 1) = -1) :
+    inOrderFft d xs = (elements d).map (eval xs) := by
+  obtain ⟨hlen, hev⟩ := coset_scale d xs
+  unfold inOrderFft fftHelper
+  generalize (if d.offset ≠ 1 then distributePowers xs d.offset else xs) = xs' at hlen hev ⊢
+  have hx' : xs'.length = 2 ^ k := by rw [hlen, hx, hd]
+  simp only [show (FFTOrder.II = FFTOrder.OI) = False by simp, if_false, if_true]
+  rw [hx', log2_two_pow, ioHelper_spec d xs' d.groupGen k hd hx' hg, brU_eq, List.map_map,
+    derange_map _ k hk, elements_eq, hd, List.map_map]
+  apply List.map_congr_left
+  intro i hi
+  simp only [Function.comp, brev_brev k i (List.mem_range.mp hi), hev]
+
+end Fwd
+
+section OI
+variable {F : Type} [CommRing F]
+
+/-! ## 8. `oi_helper` (DIT, bit-reversed input, in-order output) -/
+
+theorem eval_eq_sum (n : Nat) (c : Nat → F) (y : F) :
+    eval ((List.range n).map c) y = ∑ i ∈ Finset.range n, c i * y ^ i := by
+  induction n generalizing c with
+  | zero => simp
+  | succ n ih =>
+    rw [List.range_succ_eq_map, List.map_cons, List.map_map, eval_cons, ih, Finset.sum_range_succ',
+      Finset.mul_sum]
+    simp only [Function.comp, pow_zero, mul_one]
+    rw [add_comm]
+    congr 1
+    apply Finset.sum_congr rfl
+    intro i _
+    rw [pow_succ]; ring
+
+/-- even/odd split: `C(y) = E(y²) + y·O(y²)` -/
+theorem eval_even_odd (m : Nat) (c : Nat → F) (y : F) :
+    eval ((List.range (2 * m)).map c) y
+      = eval ((List.range m).map (fun u => c (2 * u))) (y ^ 2)
+        + y * eval ((List.range m).map (fun u => c (2 * u + 1))) (y ^ 2) := by
+  rw [eval_eq_sum, eval_eq_sum, eval_eq_sum]
+  induction m with
+  | zero => simp
+  | succ m ih =>
+    rw [show 2 * (m + 1) = 2 * m + 1 + 1 by omega, Finset.sum_range_succ, Finset.sum_range_succ, ih,
+      Finset.sum_range_succ, Finset.sum_range_succ]
+    rw [← pow_mul, pow_succ (y) (2 * m)]
+    ring
+
+omit [CommRing F] in
+theorem zipButterfly_map_range (g : F → F → F → F × F) (m : Nat) (a b r : Nat → F) :
+    zipButterfly g ((List.range m).map a) ((List.range m).map b) ((List.range m).map r)
+      = ((List.range m).map (fun t => (g (a t) (b t) (r t)).1),
+         (List.range m).map (fun t => (g (a t) (b t) (r t)).2)) := by
+  induction m generalizing a b r with
+  | zero => rfl
+  | succ m ih =>
+    simp only [List.range_succ_eq_map, List.map_cons, List.map_map, zipButterfly]
+    rw [ih]
+    rfl
+
+/-- the `u`-th entry is `x (b + u·s)`: the sub-sequence of stride `s` starting at `b` -/
+def decim (x : Nat → F) (m s b : Nat) : List F := (List.range m).map (fun u => x (b + u * s))
+
+/-- DIT step on one chunk: from the transforms of the even and odd sub-sequences to the transform of
+    the sequence -/
+theorem oi_chunk (x : Nat → F) (m s b : Nat) (z : F) (hz : z ^ m = -1) :
+    chunkButterfly butterflyOI (computePowersSerial m z) m
+        ((List.range m).map (fun t => eval (decim x m (2 * s) b) ((z ^ 2) ^ t))
+          ++ (List.range m).map (fun t => eval (decim x m (2 * s) (b + s)) ((z ^ 2) ^ t)))
+      = (List.range (2 * m)).map (fun t => eval (decim x (2 * m) s b) (z ^ t)) := by
+  have hsplit : ∀ y : F, eval (decim x (2 * m) s b) y
+      = eval (decim x m (2 * s) b) (y ^ 2) + y * eval (decim x m (2 * s) (b + s)) (y ^ 2) := by
+    intro y
+    have hE : (fun u => x (b + 2 * u * s)) = fun u => x (b + u * (2 * s)) := by
+      funext u; congr 1; ring
+    have hO : (fun u => x (b + (2 * u + 1) * s)) = fun u => x (b + s + u * (2 * s)) := by
+      funext u; congr 1; ring
+    unfold decim
+    rw [eval_even_odd]
+    simp only [hE, hO]
+  unfold chunkButterfly
+  simp only []
+  rw [List.take_left' (by simp), List.drop_left' (by simp), computePowersSerial_eq,
+    zipButterfly_map_range]
+  simp only [butterflyOI]
+  rw [show 2 * m = m + m by omega] at hsplit ⊢
+  rw [List.range_add, List.map_append, List.map_map]
+  congr 1
+  · apply List.map_congr_left
+    intro t _
+    rw [hsplit, ← pow_mul, ← pow_mul, mul_comm t 2]; ring
+  · apply List.map_congr_left
+    intro t _
+    simp only [Function.comp]
+    rw [hsplit, pow_add, hz, ← pow_mul]
+    have : (-1 * z ^ t) ^ 2 = z ^ (2 * t) := by rw [pow_mul]; ring
+    rw [this]; ring
+
+/-- the array on entry to the pass with `gap = 2^j`: chunk number `c` (of length `2^j`) is the
+    transform (w.r.t. `ω^(2^(k−j))`) of the sub-sequence with stride `2^(k−j)` and start `brU_(k−j)[c]` -/
+def oiState (k : Nat) (w : F) (x : Nat → F) (j : Nat) : List (List F) :=
+  (brU (k - j)).map (fun b => (List.range (2 ^ j)).map
+    (fun t => eval (decim x (2 ^ j) (2 ^ (k - j)) b) ((w ^ 2 ^ (k - j)) ^ t)))
+
+omit [CommRing F] in
+theorem flatten_pairs' {α : Type} (cs : List α) (p q : α → List F) :
+    (cs.flatMap (fun c => [p c, q c])).flatten = (cs.map (fun c => p c ++ q c)).flatten := by
+  induction cs with
+  | nil => rfl
+  | cons c cs ih => simp [List.flatMap_cons, ih]
+
+theorem length_brU (l : Nat) : (brU l).length = 2 ^ l := by rw [brU_eq]; simp
+
+theorem oi_pass (k j : Nat) (hj : j < k) (w : F) (hw : w ^ 2 ^ (k - 1) = -1) (x : Nat → F)
+    (fuel : Nat) (hf : 2 ^ (k - j - 1) ≤ fuel) :
+    mapChunks (chunkButterfly butterflyOI (computePowersSerial (2 ^ j) (w ^ 2 ^ (k - j - 1))) (2 ^ j))
+        (2 * 2 ^ j) fuel (oiState k w x j).flatten
+      = (oiState k w x (j + 1)).flatten := by
+  obtain ⟨l', hl'⟩ : ∃ l', k - j - 1 = l' := ⟨_, rfl⟩
+  have e1 : k - j = l' + 1 := by omega
+  have e2 : k - (j + 1) = l' := by omega
+  have hz : (w ^ 2 ^ l') ^ 2 ^ j = -1 := by
+    rw [← pow_mul, ← pow_add, show l' + j = k - 1 by omega]; exact hw
+  unfold oiState
+  rw [hl', e1, e2, brU, List.map_flatMap]
+  simp only [List.map_cons, List.map_nil]
+  rw [flatten_pairs', mapChunks_flatten _ (2 * 2 ^ j) (by positivity) _ ?_ fuel ?_, List.map_map]
+  · congr 1
+    apply List.map_congr_left
+    intro b _
+    simp only [Function.comp]
+    have := oi_chunk x (2 ^ j) (2 ^ l') b (w ^ 2 ^ l') hz
+    rw [show (w ^ 2 ^ l') ^ 2 = w ^ 2 ^ (l' + 1) by rw [← pow_mul, pow_succ],
+      show 2 * 2 ^ l' = 2 ^ (l' + 1) by rw [pow_succ]; ring,
+      show 2 * 2 ^ j = 2 ^ (j + 1) by rw [pow_succ]; ring] at this
+    exact this
+  · intro c hc
+    obtain ⟨b, _, rfl⟩ := List.mem_map.mp hc
+    simp; ring
+  · rw [List.length_map, length_brU, ← hl']; exact hf
+
+theorem oiLoop_from (k : Nat) (w : F) (hw : w ^ 2 ^ (k - 1) = -1) (x : Nat → F) :
+    ∀ (i j : Nat), j + i = k → ∀ fuel : Nat, i < fuel →
+      oiLoop (computePowersSerial (2 ^ (k - 1)) w) fuel (oiState k w x j).flatten (2 ^ j)
+        = (List.range (2 ^ k)).map (fun t => eval ((List.range (2 ^ k)).map x) (w ^ t)) := by
+  intro i
+  induction i with
+  | zero =>
+    intro j hj fuel hf
+    obtain ⟨fuel, rfl⟩ : ∃ f, fuel = f + 1 := ⟨fuel - 1, by omega⟩
+    have : j = k := by omega
+    subst this
+    have hst : (oiState j w x j).flatten
+        = (List.range (2 ^ j)).map (fun t => eval ((List.range (2 ^ j)).map x) (w ^ t)) := by
+      unfold oiState decim
+      simp [brU]
+    rw [oiLoop, hst, if_neg (by simp)]
+  | succ i ih =>
+    intro j hj fuel hf
+    obtain ⟨fuel, rfl⟩ : ∃ f, fuel = f + 1 := ⟨fuel - 1, by omega⟩
+    have hlen : (oiState k w x j).flatten.length = 2 ^ k := by
+      rw [length_flatten_const (2 ^ j)]
+      · unfold oiState; rw [List.length_map, length_brU, ← pow_add]; congr 1; omega
+      · intro c hc
+        unfold oiState at hc
+        obtain ⟨b, _, rfl⟩ := List.mem_map.mp hc
+        simp
+    have hlt : 2 ^ j < 2 ^ k := Nat.pow_lt_pow_right (by omega) (by omega)
+    have hnc : 2 ^ k / (2 * 2 ^ j) = 2 ^ (k - j - 1) := by
+      have : 2 ^ k = 2 ^ (k - j - 1) * (2 * 2 ^ j) := by
+        rw [← pow_succ', ← pow_add]; congr 1; omega
+      rw [this, Nat.mul_div_cancel _ (by positivity)]
+    rw [oiLoop, hlen, if_pos hlt]
+    simp only [hnc]
+    generalize hrs : (if 2 ^ (k - j - 1) ≥ MIN_NUM_CHUNKS_FOR_COMPACTION ∧ 2 ^ j < 2 ^ k / 2 then
+        ((stepBy (2 ^ (k - j - 1)) (computePowersSerial (2 ^ (k - 1)) w)).take (2 ^ j), 1)
+        else (computePowersSerial (2 ^ (k - 1)) w, 2 ^ (k - j - 1))) = rs
+    have hst : stepBy (2 ^ (k - j - 1)) (computePowersSerial (2 ^ (k - 1)) w)
+        = computePowersSerial (2 ^ j) (w ^ 2 ^ (k - j - 1)) := by
+      rw [stepBy_pow_table (k - 1) (k - j - 1) (by omega) w]
+      congr 2; omega
+    have h1 : stepBy rs.2 rs.1 = computePowersSerial (2 ^ j) (w ^ 2 ^ (k - j - 1)) := by
+      rw [← hrs]
+      split
+      · simp only [stepBy_one]
+        rw [hst, List.take_of_length_le (by simp)]
+      · exact hst
+    have hab : applyButterfly butterflyOI (oiState k w x j).flatten rs.1 rs.2 (2 * 2 ^ j) (2 ^ j)
+        = (oiState k w x (j + 1)).flatten := by
+      unfold applyButterfly
+      rw [h1, hlen]
+      exact oi_pass k j (by omega) w hw x _
+        (Nat.pow_le_pow_right (by omega) (by omega))
+    rw [hab, ← pow_succ]
+    exact ih (j + 1) (by omega) fuel (by omega)
+
+end OI
+
+section OI2
+variable {F : Type} [CommRing F]
+
+theorem list_eq_map_getD (xs : List F) (n : Nat) (hx : xs.length = n) :
+    xs = (List.range n).map (fun i => xs.getD i 0) := by
+  apply List.ext_getElem?
+  intro i
+  by_cases hi : i < n
+  · simp [hi, hx, List.getD_eq_getElem?_getD]
+  · rw [List.getElem?_eq_none (by omega), List.getElem?_eq_none (by simp; omega)]
+
+/-- `oi_helper` entered at `gap = 2^j` on the state `oiState … j` returns all values in order -/
+theorem oiHelper_from (d : Domain F) (k : Nat) (hd : d.size = 2 ^ k) (w : F)
+    (hw : k = 0 ∨ w ^ 2 ^ (k - 1) = -1) (x : Nat → F) (j : Nat) (hj : j ≤ k) :
+    oiHelper d (oiState k w x j).flatten w (2 ^ j)
+      = (List.range (2 ^ k)).map (fun t => eval ((List.range (2 ^ k)).map x) (w ^ t)) := by
+  rcases Nat.eq_zero_or_pos k with h0 | hpos
+  · subst h0
+    have : j = 0 := by omega
+    subst this
+    simp [oiHelper, oiState, oiLoop, brU, decim]
+  · have hw : w ^ 2 ^ (k - 1) = -1 := by
+      rcases hw with h | h
+      · omega
+      · exact h
+    unfold oiHelper rootsOfUnity
+    rw [hd, half_pow k hpos]
+    apply oiLoop_from k w hw x (k - j) j (by omega)
+    have hlen : (oiState k w x j).flatten.length = 2 ^ k := by
+      rw [length_flatten_const (2 ^ j)]
+      · unfold oiState; rw [List.length_map, length_brU, ← pow_add]; congr 1; omega
+      · intro c hc
+        unfold oiState at hc
+        obtain ⟨b, _, rfl⟩ := List.mem_map.mp hc
+        simp
+    rw [hlen]
+    have := Nat.lt_two_pow_self (n := k)
+    omega
+
+theorem oiState_zero (k : Nat) (w : F) (x : Nat → F) :
+    (oiState k w x 0).flatten = (List.range (2 ^ k)).map (fun i => x (brev k i)) := by
+  unfold oiState decim
+  rw [brU_eq, List.map_map]
+  simp only [Nat.sub_zero, pow_zero, List.range_one, List.map_cons, List.map_nil,
+    Nat.zero_mul, eval_cons, eval_nil, mul_zero, add_zero]
+  induction (List.range (2 ^ k)) with
+  | nil => rfl
+  | cons a l ih => simp [ih]
+
+/-- the `oi` dual: on the bit-reversed input the DIT loops return the values in order -/
+theorem oiHelper_derange (d : Domain F) (xs : List F) (k : Nat) (hk : k ≤ 64) (hd : d.size = 2 ^ k)
+    (hx : xs.length = 2 ^ k) (w : F) (hw : k = 0 ∨ w ^ 2 ^ (k - 1) = -1) :
+    oiHelper d (derange xs k) w 1 = (List.range (2 ^ k)).map (fun i => eval xs (w ^ i)) := by
+  have hxs := list_eq_map_getD xs (2 ^ k) hx
+  have := oiHelper_from d k hd w hw (fun i => xs.getD i 0) 0 (by omega)
+  have hdm := derange_map (fun i => xs.getD i 0) k hk
+  rw [← hxs] at hdm
+  rw [oiState_zero, ← hdm, ← hxs, pow_zero] at this
+  exact this
+
+end OI2
 end Ark.Fft.A
